@@ -83,9 +83,10 @@ def validInit (n : PNote) : Bool :=
     `note_off` default to -1 (always rejected); `sound_off` defaults to `note_off`, `track` to 0, `channel` to 1,
     `velocity` to 60 -/
 def defaulted (r : RawNote) (p : Int) : PNote :=
-  { id := r.id, pitch := p, midiPitch := r.midiPitch.getD p, on := r.on.getD (-1), off := r.off.getD (-1),
-    soundOff := r.soundOff.getD (r.off.getD (-1)), vel := r.vel.getD 60, track := r.track.getD 0,
-    chan := r.chan.getD 1, onTick := r.onTick, offTick := r.offTick }
+  { id := r.id, pitch := p, midiPitch := r.midiPitch.getD p, on := r.on.getD Gen.C14.missingOn,
+    off := r.off.getD Gen.C14.missingOff, soundOff := r.soundOff.getD (r.off.getD Gen.C14.missingOff),
+    vel := r.vel.getD Gen.C14.velDefault, track := r.track.getD Gen.C14.trackDefault,
+    chan := r.chan.getD Gen.C14.chanDefault, onTick := r.onTick, offTick := r.offTick }
 
 /-- `PerformedNote(d)`.  `pitch = d.get("pitch", d.get("midi_pitch"))`; neither pitch key: `None > 127` is a
     `TypeError`; then the defaults and the validators. -/
@@ -226,7 +227,7 @@ structure ArrFields where
   chan : Bool
 deriving Repr, DecidableEq
 
-def nIds (k : Nat) : List String := (List.range k).map (fun i => "n" ++ showNat i)
+def nIds (k : Nat) : List String := (List.range k).map (fun i => Gen.C14.fromArrayIdHead ++ showNat i)
 
 /-- the ids `from_note_array` gives: `n0, n1, …` without an id column or when all ids are equal -/
 def arrayIds (f : ArrFields) (rows : List ARow) : List String :=
@@ -238,25 +239,28 @@ def arrayIds (f : ArrFields) (rows : List ARow) : List String :=
 def rawOfRow (f : ArrFields) (id : String) (r : Row) : RawNote :=
   { id := some id, pitch := none, midiPitch := some r.pitch, on := some r.onsetSec,
     off := some (r.onsetSec + r.durSec), soundOff := some (r.onsetSec + r.durSec), vel := some r.vel,
-    track := some (if f.track then r.track else 0), chan := some (if f.chan then r.chan else 1),
+    track := some (if f.track then r.track else Gen.C14.fromArrayTrackDefault),
+    chan := some (if f.chan then r.chan else Gen.C14.fromArrayChanDefault),
     onTick := none, offTick := none }
 
 /-- default `ppq` / `mpq` of a `PerformedPart` -/
-def defaultPpq : Nat := 480
-def defaultMpq : Nat := 500000
+def defaultPpq : Nat := Gen.C14.defaultPpq
+def defaultMpq : Nat := Gen.C14.defaultMpq
 
 /-- `PerformedPart.from_note_array(a)`: a missing mandatory column raises at the first row (an empty array
     has none), no controls, threshold 64, default ppq/mpq -/
 def fromArray (f : ArrFields) (rows : List ARow) : Option PPart :=
-  if rows.isEmpty then buildRaw [] [] 64
+  if rows.isEmpty then buildRaw [] [] Gen.C14.defaultThreshold
   else if !(f.sec && f.vel) then none
-  else buildRaw ((arrayIds f rows).zip rows |>.map (fun ir => rawOfRow f ir.1 ir.2.row)) [] 64
+  else buildRaw ((arrayIds f rows).zip rows |>.map (fun ir => rawOfRow f ir.1 ir.2.row)) [] Gen.C14.defaultThreshold
 
-def pad2 (i : Nat) : String := if i < 10 then "0" ++ showNat i else showNat i
+/-- `"{0:02d}".format(i)`: the decimal digits, zero-padded to the (regenerated) width -/
+def pad2 (i : Nat) : String :=
+  String.ofList (List.replicate (Gen.C14.idPrefixWidth - (natDigits i).length) '0') ++ showNat i
 
 /-- `"P{0:02d}_".format(i) + nid` when `unique_id_per_part` (default True) and the list has more than one part -/
 def prefixIds (uid : Bool) (nparts i : Nat) (rows : List ARow) : List ARow :=
-  if uid && decide (nparts > 1) then rows.map (fun r => { r with id := "P" ++ pad2 i ++ "_" ++ r.id }) else rows
+  if uid && decide (nparts > 1) then rows.map (fun r => { r with id := Gen.C14.idPrefixHead ++ pad2 i ++ Gen.C14.idPrefixTail ++ r.id }) else rows
 
 /-- the concatenated note arrays of the parts -/
 def perfConcat (uid : Bool) (parts : List (List ARow)) : List ARow :=
